@@ -26,7 +26,7 @@ var recFam = ev.New("C12", "listener-family-and-config-form",
 	"plain, fixed plans spread over the shards: {127.0.0.1, [::1], [::], \":port\"} x {no, sendmmsg} x rotating {socks5, none, direct} NAT servers, "+
 		"each with an eviction plan (natTimeout 400 ms: burst with a refused datagram inside, establish, failed-then-working initialisation, eviction, restart, again) and a Stop plan "+
 		"(natTimeout 5 s: establish, failed-then-working initialisation, uplink stream + reply flood, Stop); dead-upstream forms of the failed initialisation (connection refused, "+
-		"association refused, name not resolving); the same server written with the deprecated single-listener fields (natTimeoutSec 1: a datagram every 200 ms for 1.5 s keeps the session, "+
+		"association refused, name not resolving); the same server written with the deprecated single-listener fields (natTimeoutSec 1: a reply 0.5 s after the session's last datagram is still relayed, "+
 		"silence evicts it within natTimeout + slack); sendmmsg bursts with one or two port-0 datagrams at the first / a middle position. A plan that did not produce its class label is run once more. "+
 		"Non-trivial: every plan").
 	Require(famRequired()...)
@@ -38,7 +38,7 @@ func famRequired() []string {
 			r = append(r, "lifecycle:"+listenName(l)+":"+b, "stop:"+listenName(l)+":"+b)
 		}
 	}
-	r = append(r, "legacy-evicted:no", "legacy-evicted:sendmmsg", "legacy-keepalive-held", "legacy-stop:no", "legacy-stop:sendmmsg",
+	r = append(r, "legacy-evicted:no", "legacy-evicted:sendmmsg", "legacy-idle-half-held", "legacy-stop:no", "legacy-stop:sendmmsg",
 		"refused-mix:sendmmsg", "refused-mix-first-in-batch:sendmmsg", "refused-mix:no", "refused-mix-then-stop:sendmmsg",
 		"reinit-ok:"+reinitReject, "reinit-ok:"+reinitName, "reinit-ok:"+reinitRefused, "reinit-ok:"+reinitAssocRep, "reinit-ok-v6-client")
 	return r
@@ -75,8 +75,9 @@ func famPlans() []famPlan {
 			}
 			ln := listenName(l)
 			add("lifecycle/"+ln+"/"+b, &plan{ServerProto: server, BatchMode: b, ClientProto: client, EndpointByName: byName, NATTimeoutMs: 400, NSessions: 3, Listen: l,
-				Phases: []phase{{Kind: phRefusedMix, N: 6, Pct: 1, Variant: "single"}, {Kind: phEstablish}, {Kind: phReinit, N: 3, Variant: variant},
-					{Kind: phPauseEvict}, {Kind: phResend}, {Kind: phReinit, N: 1, Variant: variant}, {Kind: phPauseEvict}, {Kind: phResend}}},
+				// (establish directly before the pause: with natTimeout 400 ms on a loaded machine the sessions must not be half expired already)
+				Phases: []phase{{Kind: phRefusedMix, N: 6, Pct: 1, Variant: "single"}, {Kind: phReinit, N: 3, Variant: variant}, {Kind: phEstablish},
+					{Kind: phPauseEvict}, {Kind: phResend}, {Kind: phReinit, N: 1, Variant: variant}, {Kind: phResend}, {Kind: phPauseEvict}, {Kind: phResend}}},
 				[]string{"eviction-observed", "restart-answered", "reinit-ok:" + variant, "stop-prompt"}, "lifecycle:"+ln+":"+b)
 			add("stop/"+ln+"/"+b, &plan{ServerProto: server, BatchMode: b, ClientProto: client, EndpointByName: byName, NATTimeoutMs: 5000, NSessions: 3, Listen: l,
 				Phases: []phase{{Kind: phEstablish}, {Kind: phReinit, N: 3, Variant: variant}, {Kind: phStream}, {Kind: phFlood}}, StopDelayMs: 5},
@@ -86,7 +87,7 @@ func famPlans() []famPlan {
 	// dead upstream: connection refused / association refused / name not resolving, then alive again
 	add("dead-upstream/dual/sendmmsg", &plan{ServerProto: "socks5", BatchMode: "sendmmsg", ClientProto: "socks5", EndpointByName: true, NATTimeoutMs: 400, NSessions: 3, Listen: lisDual,
 		Phases: []phase{{Kind: phEstablish}, {Kind: phReinit, N: 3, Variant: reinitRefused}, {Kind: phReinit, N: 1, Variant: reinitAssocRep}, {Kind: phReinit, N: 1, Variant: reinitName},
-			{Kind: phPauseEvict}, {Kind: phResend}}},
+			{Kind: phResend}, {Kind: phPauseEvict}, {Kind: phResend}}},
 		[]string{"eviction-observed", "restart-answered", "reinit-ok:" + reinitRefused, "reinit-ok:" + reinitAssocRep, "reinit-ok:" + reinitName, "reinit-ok-v6-client"})
 	add("dead-upstream/v6/no", &plan{ServerProto: "none", BatchMode: "no", ClientProto: "socks5", ClientAuth: true, EndpointByName: true, NATTimeoutMs: 400, NSessions: 2, Listen: lisV6,
 		Phases: []phase{{Kind: phReinit, N: 1, Variant: reinitAssocRep}, {Kind: phReinit, N: 2, Variant: reinitRefused}, {Kind: phEstablish}, {Kind: phPauseEvict}, {Kind: phResend}}},
@@ -96,22 +97,24 @@ func famPlans() []famPlan {
 		[]string{"stop-prompt", "reinit-ok:" + reinitName})
 
 	// deprecated single-listener fields: natTimeoutSec must be the timeout that evicts
-	// (keepAlive: a datagram every natTimeout/5 for 1.5 x natTimeout must keep the relay socket - a timeout far
-	// below the configured second would not; judged while the relay-side gap stays below 0.6 x natTimeout)
+	// (idleHalf: half a second after a session's last datagram a reply from the destination must still be relayed -
+	// with a timeout far below the configured second it would not be)
 	add("legacy/v4/sendmmsg", &plan{ServerProto: "socks5", BatchMode: "sendmmsg", ClientProto: "direct", NATTimeoutMs: 1000, NSessions: 2, ConfigForm: formLegacy,
-		Phases: []phase{{Kind: phEstablish}, {Kind: phKeepAlive}, {Kind: phPauseEvict}, {Kind: phResend}, {Kind: phRefusedMix, N: 6, Pct: 2, Variant: "single"}}},
+		Phases: []phase{{Kind: phEstablish}, {Kind: phIdleHalf}, {Kind: phPauseEvict}, {Kind: phResend}, {Kind: phRefusedMix, N: 6, Pct: 2, Variant: "single"}}},
 		[]string{"legacy-evicted-at-configured-timeout", "restart-answered", "stop-prompt"}, "legacy-evicted:sendmmsg")
-	out[len(out)-1].opt = map[string]string{"keepalive-held": "legacy-keepalive-held"}
+	out[len(out)-1].opt = map[string]string{"idle-half-held": "legacy-idle-half-held"}
 	add("legacy/dualany/no", &plan{ServerProto: "none", BatchMode: "no", ClientProto: "direct", NATTimeoutMs: 1000, NSessions: 3, ConfigForm: formLegacy, Listen: lisDualAny,
-		Phases: []phase{{Kind: phEstablish}, {Kind: phKeepAlive}, {Kind: phPauseEvict}, {Kind: phResend}}},
+		Phases: []phase{{Kind: phEstablish}, {Kind: phIdleHalf}, {Kind: phPauseEvict}, {Kind: phResend}}},
 		[]string{"legacy-evicted-at-configured-timeout", "restart-answered", "stop-prompt"}, "legacy-evicted:no")
-	out[len(out)-1].opt = map[string]string{"keepalive-held": "legacy-keepalive-held"}
+	out[len(out)-1].opt = map[string]string{"idle-half-held": "legacy-idle-half-held"}
 	add("legacy/dual/sendmmsg/perf-fields", &plan{ServerProto: "none", BatchMode: "sendmmsg", RelayBatch: 4, SendChanCap: 64, ClientProto: "direct", NATTimeoutMs: 1000, NSessions: 3, ConfigForm: formLegacy, Listen: lisDual,
-		Phases: []phase{{Kind: phEstablish}, {Kind: phReinit, N: 2, Variant: reinitReject}, {Kind: phPauseEvict}, {Kind: phResend}}},
+		Phases: []phase{{Kind: phEstablish}, {Kind: phReinit, N: 2, Variant: reinitReject}, {Kind: phIdleHalf}, {Kind: phPauseEvict}, {Kind: phResend}}},
 		[]string{"legacy-evicted-at-configured-timeout", "restart-answered", "reinit-ok:" + reinitReject, "stop-prompt"}, "legacy-evicted:sendmmsg")
+	out[len(out)-1].opt = map[string]string{"idle-half-held": "legacy-idle-half-held"}
 	add("legacy/v6/no", &plan{ServerProto: "socks5", BatchMode: "no", ClientProto: "none", NATTimeoutMs: 1000, NSessions: 2, ConfigForm: formLegacy, Listen: lisV6,
-		Phases: []phase{{Kind: phEstablish}, {Kind: phPauseEvict}, {Kind: phResend}}},
+		Phases: []phase{{Kind: phEstablish}, {Kind: phIdleHalf}, {Kind: phPauseEvict}, {Kind: phResend}}},
 		[]string{"legacy-evicted-at-configured-timeout", "restart-answered", "stop-prompt"}, "legacy-evicted:no")
+	out[len(out)-1].opt = map[string]string{"idle-half-held": "legacy-idle-half-held"}
 	for _, b := range []string{"no", "sendmmsg"} {
 		add("legacy-stop/"+b, &plan{ServerProto: "socks5", BatchMode: b, ClientProto: "direct", NATTimeoutMs: 5000, NSessions: 3, ConfigForm: formLegacy, Listen: lisDual,
 			Phases: []phase{{Kind: phEstablish}, {Kind: phStream}, {Kind: phFlood}}, StopDelayMs: 5},
